@@ -119,7 +119,7 @@ Definition canon (l : list fk) : list fk := filter (fun k => fk_mem k l) all_fk.
 Definition kinds (o : outcome) : list fk := match o with Ok l => l | Crash _ => [FCrash] end.
 
 (* ---------- media_types.parse (core/media_types.py:37) ---------- *)
-(* first field of _parseparam(";" + line): up to the first ';' that is at index 0 or
+(* first field of _parseparam(; + line): up to the first ; that is at index 0 or
    has an even number of double quotes not preceded by a backslash before it *)
 Fixpoint seg_scan (s : str) (first prev_bs odd : bool) (acc : str) : str :=
   match s with
@@ -307,7 +307,7 @@ Definition headers_check (hvalid : N -> str -> bool) (d : doc) (r : response) : 
               end
   end.
 
-(* get_response_schema: 2.0 takes "schema" (schemas.py:990), 3.x the FIRST media type (schemas.py:1149) *)
+(* get_response_schema: 2.0 takes schema (schemas.py:990), 3.x the FIRST media type (schemas.py:1149) *)
 Definition first_schema (v30 : bool) (b : rbody) : option sch :=
   if v30 then match r_content b with [] => None | (_, s) :: _ => s end else r_schema20 b.
 
